@@ -544,7 +544,9 @@ def gen_template(rng, lang='markup', **opts):
 # --------------------------------------------------------------------------
 # running the real engine
 
-INVALID = ('TemplateSyntaxError', 'BadDirectiveError')
+# every case is checked for grammar membership (valid_nodes) before it is judged, so a template the
+# engine rejects is a failure of the engine, not an invalid input
+INVALID = ()
 
 
 def template_class(lang):
@@ -606,8 +608,8 @@ def render_real(lang, nodes, data, lookup='lenient', exact=None):
     cls = template_class(lang)
     try:
         tmpl = cls(source(lang, nodes), lookup=lookup)
-    except Exception as e:   # noqa  -- not a template of the grammar (only shrinking produces these)
-        return ['invalid', type(e).__name__]
+    except Exception as e:   # noqa
+        return ['err', type(e).__name__]
     try:
         raw = list(tmpl.generate(**data_kwargs(data)))
         if exact is not None:
